@@ -308,6 +308,9 @@ def operations(mesh, tier):
                 op(f"revolve(phi={lab})", lambda m, phis=phis: m.revolve(phi=phis), lambda v, m, phis=phis: np.sin(np.deg2rad(np.diff(phis))).sum() * r_integral(m), post="revolve")
         if mesh.points[:, 0].min() > 1e-6:
             op("revolve(n=4,phi=90,axis=1)", lambda m: m.revolve(n=4, phi=90, axis=1), lambda v, m: 3 * np.sin(np.deg2rad(30.0)) * r_integral(m, 0), post="revolve")
+            # full turns about the second axis (closed ring: the last layer IS the first one), scalar angle and angle array
+            op("revolve(n=7,phi=360,axis=1)", lambda m: m.revolve(n=7, phi=360, axis=1), lambda v, m: 6 * np.sin(np.deg2rad(60.0)) * r_integral(m, 0), post="revolve")
+            op("revolve(phi=13 angles, closed,axis=1)", lambda m: m.revolve(phi=np.linspace(0.0, 360.0, 13), axis=1), lambda v, m: 12 * np.sin(np.deg2rad(30.0)) * r_integral(m, 0), post="revolve")
         op("convert(order=2)", lambda m: m.convert(order=2), post="midpoints")
         op("convert(order=2,midfaces)", lambda m: m.convert(order=2, calc_midfaces=True), post="midpoints")
         op("add_midpoints_edges", lambda m: m.add_midpoints_edges(), post="midpoints")
@@ -546,6 +549,13 @@ def run(case):
                         bad(sub + "/points", "run-outs with zero amplitude must not move points", float(np.abs(new.points - mesh.points).max()), 0)
                 elif post == "mode0":
                     pass
+                elif post == "revolve":
+                    # a body of revolution off the axis has no coincident points; a full turn is a closed ring (no seam layer)
+                    u_ = np.unique(np.round(new.points, 9), axis=0)
+                    st["traces"] += 1
+                    # (only for plane meshes that have no coincident points themselves: concatenated copies keep theirs)
+                    if len(np.unique(np.round(mesh.points, 9), axis=0)) == mesh.npoints and len(u_) != new.npoints:
+                        bad(sub + "/coincident-points", "coincident points in a revolved mesh (seam of a full turn not closed)", int(new.npoints - len(u_)), 0)
                 k = canon(new)
                 if k not in seen:
                     seen[k] = prog + (label,)
